@@ -6,7 +6,7 @@ P=$(readlink -f "$1"); ID=$2; shift 2
 WT=$(mktemp -d /tmp/seedrun-XXXXXX)
 rmdir "$WT"
 git -C /repo worktree add -q --detach "$WT" HEAD || exit 3
-cleanup() { git -C /repo worktree remove --force "$WT" 2>/dev/null; rm -rf "$WT"; }
+cleanup() { git -C /repo worktree remove --force "$WT" 2>/dev/null; rm -rf "$WT" "/tmp/verif-trial-$(basename "$WT")"; }
 trap cleanup EXIT
 if ! git -C "$WT" apply "$P" 2>/dev/null; then
   if ! git -C "$WT" apply -3 "$P" >/dev/null 2>&1 || git -C "$WT" diff --name-only --diff-filter=U | grep -q .; then echo "PATCH DOES NOT APPLY to current HEAD"; exit 3; fi
